@@ -10,8 +10,8 @@ import (
 	"github.com/KevoDB/kevo/pkg/zzverif/vsym"
 )
 
-// VerifMgrConc: one client Put racing the flush goroutine body, then a sequential Get.
-func VerifMgrConc() {
+// VerifC06_PutVsFlush: one client Put racing the flush goroutine body, then a sequential Get.
+func VerifC06_PutVsFlush() {
 	cfg := config.NewDefaultConfig(vsym.Dir())
 	cfg.MemTableSize = 1
 	m, err := NewManager(cfg, stats.NewAtomicCollector())
